@@ -143,4 +143,29 @@ theorem replica_torn_commit_point_partial (C : Crypto) (hC : TreeStore.HashWF C)
   · obtain ⟨c', j, r1, r2, _, _⟩ := ReplicaCrash.durR_open C bs m held _ _ _ (t2 t ht)
     exact ⟨c', j, r1, C02.shows_of_rp C bs m c' _ held r2, r2⟩
 
+/-- **the header write of a replica's periodic flush, torn** (with the checksum assumption of `torn_atomic`): `c1` is the
+    core right after the act's entry has been logged, `d1` its stores; when the periodic flush that follows has written
+    all dirty pages and all unflushed nodes and its header write reaches the store only as a prefix that does not
+    validate, `Hypercore::new` succeeds and shows the replica as the completed application leaves it (the old header
+    and all entries are replayed over stores that are ahead), with the invariants re-established -/
+theorem replica_torn_header (C : Crypto) (hC : TreeStore.HashWF C) (hT : TreeStore.TreeWF C) (bs : Array Bytes) (m : Nat) (c : Core) (d : Disk)
+    (held : Nat → Bool) (h : ReplicaReopen.RP C bs m c d held) (hm0 : 0 < m) (a : HashReq.Act)
+    (hok : HashReq.OkActs C bs c.publicKey c.tree.fork m [a]) :
+    ∃ (c1 : Core) (e : Oplog.Entry) (j0 : List SOp),
+      (c.verifyAndApply C d (HashReq.actProof C bs c d a)).journal = (j0 ++ (Oplog.appendEntry c.oplog e).2) ++ c1.maybeFlush.2
+      ∧ ∀ (off : Nat) (bytes : Bytes) (t : Nat),
+          (Oplog.insertHeader c1.header 0 c1.oplog.bits false).2.head? = some (.write .oplog off bytes) →
+          Oplog.validateLeader (((d.applyAll (j0 ++ (Oplog.appendEntry c.oplog e).2)).oplog.write off (bytes.take t)).toList.drop off |>.take Spec.headerSize) = none →
+          let dt := ((d.applyAll (j0 ++ (Oplog.appendEntry c.oplog e).2)).applyAll (c1.bitfield.flush.2 ++ c1.tree.flush.2)).apply (.write .oplog off (bytes.take t))
+          ∃ c' j, Core.openCore C none dt = .ok (c', j)
+            ∧ C02.Shows bs (HashReq.lenAfter m [a]) (fun i => held i || HashReq.fetched [a] i) c' (dt.applyAll j)
+            ∧ ReplicaReopen.RP C bs (HashReq.lenAfter m [a]) c' (dt.applyAll j) (fun i => held i || HashReq.fetched [a] i) := by
+  obtain ⟨c1, e, j0, hk⟩ := ReplicaCrash.act_ok C hC hT bs m c d held h hm0 a hok
+  have hmid := ReplicaReopen.ok_mid C bs m _ c c1 d held _ _ e j0 h hk
+  obtain ⟨hf1, es1, hp1, hx1⟩ := hmid.per
+  refine ⟨c1, e, j0, hk.shape.2, fun off bytes t hop hcrc => ?_⟩
+  have hdur := ReplicaCrash.torn_headerR C bs _ c1 _ _ hf1 es1 hmid.rep hp1 hx1 h.size off bytes hop t hcrc
+  obtain ⟨c', j, r1, r2, _, _⟩ := ReplicaCrash.durR_open C bs _ _ _ _ _ hdur
+  exact ⟨c', j, r1, C02.shows_of_rp C bs _ c' _ _ r2, r2⟩
+
 end HC.C07
